@@ -84,6 +84,7 @@ type write struct {
 	counter model.MsgCounterType
 	verdict []string // per callback
 	late    []bool   // per callback: delivered after the time-out
+	bareDst bool     // the destination address of the write names no device (the device part is optional)
 }
 
 func (w write) marker() string { return fmt.Sprintf("w-%d-%d", w.peer, w.item) }
@@ -97,7 +98,11 @@ func (e *env) send(w write) {
 			{AlarmId: util.Ptr(model.AlarmIdType(w.item)), Description: util.Ptr(model.DescriptionType(w.marker()))},
 		}},
 	}
-	d := p.Msg(model.CmdClassifierTypeWrite, p.FA([]uint{1}, 1), e.srv.Address(), w.ack, nil, cmd)
+	dst := *e.srv.Address()
+	if w.bareDst {
+		dst.Device = nil
+	}
+	d := p.Msg(model.CmdClassifierTypeWrite, p.FA([]uint{1}, 1), &dst, w.ack, nil, cmd)
 	c := w.counter
 	d.Header.MsgCounter = &c
 	p.Send(d)
@@ -180,6 +185,7 @@ func TestApprovalMatrix(t *testing.T) {
 		used := map[string]bool{}
 		for i := 0; i < nW; i++ {
 			w := write{peer: rapid.IntRange(0, 1).Draw(t, fmt.Sprintf("peer%d", i)), item: i, ack: rapid.IntRange(0, 3).Draw(t, fmt.Sprintf("ack%d", i)) != 0}
+			w.bareDst = rapid.IntRange(0, 3).Draw(t, fmt.Sprintf("destinationWithoutDevice%d", i)) == 0
 			// equal message counters on different peers are allowed (and wanted)
 			w.counter = model.MsgCounterType(100 + rapid.IntRange(0, 2).Draw(t, fmt.Sprintf("counter%d", i)))
 			for used[fmt.Sprint(w.peer, w.counter)] {
